@@ -389,8 +389,12 @@ class FileBufferedCollection(BufferedCollection):
                 issues[collection._filename] = err
         # The collections that are still buffered stay registered whether or not
         # the flush raised; otherwise nothing would flush them (and remove their
-        # buffer entries) when the buffered contexts exit.
-        cls._buffered_collections = remaining_collections
+        # buffer entries) when the buffered contexts exit. They are put back
+        # into the live registry rather than replacing it: another thread may
+        # have registered a collection since the registry was drained.
+        with cls._BUFFER_LOCK:
+            for col_id, collection in remaining_collections.items():
+                cls._buffered_collections.setdefault(col_id, collection)
         if issues:
             raise BufferedError(issues)
 
